@@ -86,18 +86,63 @@ def record_events(f, path):
     return out
 
 
-def handlers(F):
-    """functions that store into the status vector or into Peer.piece_index"""
+def _touches(f):
+    for bi, si, s in f.stores():
+        le = f.expr_place(s['lhs'])
+        if (le[0] == 'call' and le[4].get('name') == 'index_mut' and 'pieces_status' in show(le[2][0])) or access_path(le) == 'self.piece_index':
+            return True
+    return False
+
+
+def _relevant(g):
+    """callee that takes part in reservation bookkeeping: a Status in its signature, or a store to piece_index"""
+    return any('session::Status' in g.locals[i]['ty'] for i in range(g.argc + 1)) or \
+        any(access_path(g.expr_place(s['lhs'])) == 'self.piece_index' for bi, si, s in g.stores())
+
+
+def _pure(g):
+    return not any(g.locals[i]['ty'].startswith('&mut ') for i in range(1, g.argc + 1))
+
+
+def _splice(f, g):
+    """is callee g spliced into caller f?  pure helpers always; helpers with `&mut` parameters only into synchronous
+    callers of the same type (a `&mut self` method called from another type's code is that object's own handler)"""
+    if _pure(g):
+        return True
+    if f.coroutine:
+        return False
+    return g.self_ty is None or g.self_ty == f.self_ty
+
+
+def spliced_fns(F):
+    """every user function with its bookkeeping helpers spliced in (MIR-level inlining): a pure helper
+    (`fn released(&Status) -> Status`) is inlined everywhere, a helper with `&mut` parameters into synchronous callers of
+    the same type; a helper inlined at every call site is not listed on its own."""
+    if getattr(F, '_c12_spliced', None) is not None:
+        return F._c12_spliced
+    not_inlined_somewhere = set()
+    has_callers = set()
+    for f in F.user_fns():
+        for bb, tgt in C.local_calls(F, f):
+            g = F.fns.get(tgt)
+            if g is None or not mirq.inlinable(F, g) or not _relevant(g):
+                continue
+            has_callers.add(tgt)
+            if not _splice(f, g):
+                not_inlined_somewhere.add(tgt)
     out = []
     for f in F.user_fns():
-        touches = False
-        for bi, si, s in f.stores():
-            le = f.expr_place(s['lhs'])
-            if (le[0] == 'call' and le[4].get('name') == 'index_mut' and 'pieces_status' in show(le[2][0])) or access_path(le) == 'self.piece_index':
-                touches = True
-        if touches:
-            out.append(f)
+        if f.path in has_callers and f.path not in not_inlined_somewhere:
+            continue
+        sel = (lambda g, f=f: _relevant(g) and _splice(f, g))
+        out.append(mirq.inline_fn(F, f, sel, depth=3))
+    F._c12_spliced = out
     return out
+
+
+def handlers(F):
+    """functions that store into the status vector or into Peer.piece_index (helpers spliced in)"""
+    return [f for f in spliced_fns(F) if _touches(f)]
 
 
 def paths_of(f):
@@ -342,7 +387,11 @@ def r6b(cx, rec):
             continue
         direct = [bi for bi, si, s in f.stores() if (lambda le: le[0] == 'call' and le[4].get('name') == 'index_mut' and 'pieces_status' in show(le[2][0]))(f.expr_place(s['lhs']))]
         for cb in chs:
-            late = [b for b in direct if b in f.reach_from(cb)]
+            # stores are statements, the call is the terminator: a store in the call's own block precedes it
+            after = set()
+            for nb in f.succs(cb):
+                after |= f.reach_from(nb)
+            late = [b for b in direct if b in after]
             rec.site(f, cb, 'chooser call; own status stores: %d, after the choice: %d' % (len(direct), len(late)))
             rec.need(not late, 'choice-before-status-update/' + F.owner_fn(f).path, f, cb,
                      'the piece is chosen before this handler has updated the status vector: the piece that was just completed/released is still '
@@ -362,13 +411,11 @@ ALLOW = {
     'session::Session::choose_piece_index::{closure#0}/overflow:Add/': 'u32 availability counter bounded by the number of peers',
     'session::Session::handle_piece_done::{closure#0}/index/self.pieces_status': 'index = piece_index recorded by the manager itself',
     'session::Session::handle_piece_cancel::{closure#0}/index/self.pieces_status': 'index = piece_index recorded by the manager itself',
-    'session::Session::handle_piece_cancel::{closure#0}/overflow:Sub/': 'n - 1 under n >= 2',
     'session::Session::timeout_change_conn_state::{closure#0}/overflow:Add/': '(round + 1) % 3',
     'session::Session::timeout_change_conn_state::{closure#0}::{closure#': 'rates are Some: guarded by the any(is_none) early return of the same function',
     'session::Session::change_conn_state/overflow:Add/': 'count < MAX_UNCHOKED',
     'session::Session::handle_tracker_cmd::{closure#0}/overflow:': 'small constants and peer counts in i32',
     'peer::Peer::handle_choke/index/pieces_status,self.piece_index': 'index recorded by the manager itself',
-    'peer::Peer::handle_choke/overflow:Sub/': 'n - 1 under n >= 2',
     'peer::Peer::handle_unchoke/index/pieces_status,chosen_index': 'chosen by choose_piece_index (< pieces_num)',
     'peer::Peer::handle_unchoke/overflow:Add/': 'reservation counter bounded by the number of peers',
     'peer::Peer::handle_piece/index/pieces_status,chosen_index': 'chosen by choose_piece_index (< pieces_num)',
